@@ -63,6 +63,7 @@ pub struct Fail {
 }
 
 fn execute(robot: &Arc<KinematicsWithShape>, case: &Case, cfg: &SimCfg) -> SimOut<Vec<QObs>> {
+    report::progress_case(|| { let mut c = case.clone(); c.cfgs = vec![cfg.clone()]; c.reconfigure = None; json!({"check": "C10", "case": c}) });
     let robot = robot.clone();
     let qs = case.qs.clone();
     let near = case.near.as_ref().map(|n| Arc::new(n.build()));
@@ -684,6 +685,7 @@ pub fn run(tier_name: &str, seed: u64) -> i32 {
     let tally = report::run_shards(t.shards, |shard| {
         let mut tally = Tally::default();
         for run in 0..t.scenarios_per_shard {
+            report::progress(shard, run);
             let (case, rels) = gen_case(seed, shard as u64, run as u64, &t);
             for r in &rels {
                 tally.bump(&format!("env_relation_{r:?}").to_lowercase(), 1);
